@@ -42,11 +42,11 @@ Print Assumptions C20_vars.
 Definition ok1 := {| c_cmd := [101%N]; c_out := [109%N; 10%N]; c_err := []; c_status := 0 |}.
 Definition defs_d := [ {| td_name := 3; td_deps := []; td_lits := []; td_globs := []; td_cmds := [ok1] |};
                        {| td_name := 1; td_deps := []; td_lits := []; td_globs := []; td_cmds := [] |} ].
-Definition plain := {| f_quiet := false; f_json := false; f_force := false; f_show := false; f_vars := false; f_clean := false |}.
+Definition plain := {| f_quiet := false; f_json := false; f_force := false; f_show := false; f_vars := false; f_clean := false; f_debug := false |}.
 Example C20_default :
   ob_stdout (snd (invoke (fun _ l => l) defs_d [] (init_i (fun _ => None)) plain [])) = SDText [MCompleted 3]
   /\ ob_stdout (snd (invoke (fun _ l => l) (tl defs_d) [] (init_i (fun _ => None)) plain [])) = SDListing [1]
-  /\ ob_stdout (snd (invoke (fun _ l => l) defs_d [] (init_i (fun _ => None)) {| f_quiet := false; f_json := true; f_force := false; f_show := false; f_vars := false; f_clean := false |} [3]))
+  /\ ob_stdout (snd (invoke (fun _ l => l) defs_d [] (init_i (fun _ => None)) {| f_quiet := false; f_json := true; f_force := false; f_show := false; f_vars := false; f_clean := false; f_debug := false |} [3]))
      = SDJson [{| tr_name := 3; tr_skipped := false; tr_cmds := [ok1] |}].
 Proof. repeat split; vm_compute; reflexivity. Qed.
 Print Assumptions C20_default.
